@@ -981,7 +981,7 @@ theorem C10_repair_roundtrip_fragment (env : Env) (t : Tree) (hr : Representable
     document holding the element before the call.  (For an element INSIDE a document see
     `C10_repair_representable_element`: the document stays in the domain and the element's subtree is
     writable, `C10_repair_writable`; `to_string(inner element)`, which also writes the declarations in
-    scope, is not covered by the round-trip theorem.) -/
+    scope, is `C10_repair_roundtrip_inner` below.) -/
 theorem C10_repair_roundtrip_element (env : Env) (name : Nat) (ks : List Tree)
     (hr : Representable env (.node .document [.node (.element name) ks]) = true)
     (htab : nameTableOK env = true) (env' : Env) (T' : Tree)
@@ -1012,6 +1012,56 @@ theorem C10_repair_roundtrip_element (env : Env) (name : Nat) (ks : List Tree)
   exact deepEqual_of_stripNs (allNodes_of_representableFragment hr'.1).2.2
     (allNodes_of_representableFragment hr1.1).2.2 (stripNs_wrap rfl rfl hframe)
 
+/-- **C10_repair_roundtrip_inner**: the call on an ELEMENT anywhere inside a representable document (or
+    fragment).  The document stays in the C01 domain, every name below the element is writable, and
+    `to_string(element)` — which writes the declarations in scope at the element before the element's own —
+    succeeds and parses back to the STANDALONE document of the repaired element (`standalone`,
+    Model/InnerStartSpec.lean: the element with the inherited declarations as namespace nodes in front;
+    `C01_roundtrip_inner`); the reparsed document element is `deep_equal` to the repaired element and to the
+    element BEFORE the call (which differs from it in namespace nodes only). -/
+theorem C10_repair_roundtrip_inner (env : Env) (t : Tree) (hr : RepresentableFragment env t = true)
+    (htab : nameTableOK env = true) (path : Path) (name : Nat) (ks : List Tree)
+    (hat : t.at? path = some (.node (.element name) ks)) (env' : Env) (t' : Tree)
+    (h : createMissingPrefixes env t path = .ok (env', t')) :
+    RepresentableFragment env' t' = true ∧ namesWritable env' t' path = some true ∧
+    ∃ ks' s p X, t'.at? path = some (.node (.element name) ks') ∧
+      stripNs (.node (.element name) ks') = stripNs (.node (.element name) ks) ∧
+      toXmlString env' t' path = .ok s ∧
+      standalone t' path = some (.node .document [.node (.element name) (nsLeaves X ++ ks')]) ∧
+      parseString .document env' s = .ok p ∧
+      p.tree = .node .document [.node (.element name) (nsLeaves X ++ ks')] ∧ p.env = env' ∧
+      deepEqual (.node (.element name) (nsLeaves X ++ ks')) (.node (.element name) ks') = true ∧
+      deepEqual (.node (.element name) (nsLeaves X ++ ks')) (.node (.element name) ks) = true := by
+  obtain ⟨h1, _, h3⟩ := allNodes_of_representableFragment hr
+  obtain ⟨e, k⟩ := createMissingPrefixes_element_keeps env h1 htab t h3 path name ks hat env' t' h
+  have hfrag' : RepresentableFragment env' t' = true :=
+    representableFragment_of_keeps (representableFragment_ext e hr) k
+  have hsub : (Tree.node (.element name) ks).allNodes (nodeOK env) = true := allNodes_at? path t _ h3 hat
+  have hu := uniqueBelow_of_allNodes _ hsub
+  have hEnvOk := envOk_of_envOK h1
+  have hw := C10_repair_writable env hEnvOk t path name ks hat hu env' t' h
+  have h' := h
+  rw [C10_repair_element env t path name ks hat] at h'
+  obtain ⟨nd, hat', _⟩ := (repairElement_facts env hEnvOk t path name ks hat hu env' t' h').nd
+  have hval := value_rebuild env.nsOfName nd true (inheritedDecls t path) (.node (.element name) ks)
+  have hstrip := stripNs_rebuild env.nsOfName nd (.node (.element name) ks) true (inheritedDecls t path)
+  generalize rebuild env.nsOfName nd true (inheritedDecls t path) (.node (.element name) ks) = T' at hat' hval hstrip
+  cases T' with
+  | node v ks' =>
+    simp only [Tree.value] at hval
+    subst hval
+    obtain ⟨s, p, X, k1, k2, k3, k4, k5, k6, k7⟩ :=
+      C01_roundtrip_inner_writable env' t' hfrag' path name ks' hat' hw
+    refine ⟨hfrag', hw, ks', s, p, X, hat', hstrip, k1, k2, k4, k5, k6, k7, ?_⟩
+    have hfr : RepresentableFragment env' (.node .document [.node (.element name) (nsLeaves X ++ ks')]) = true := by
+      simp only [Representable, Bool.and_eq_true] at k3; exact k3.1
+    obtain ⟨_, _, hn, _⟩ := (representableFragment_iff env' _).mp hfr
+    have hne : (Tree.node (.element name) (nsLeaves X ++ ks')).allNodes (nodeOK env') = true :=
+      allNodes_kid hn (by simp)
+    apply deepEqual_of_dropNs _ _ (valid_of_nodeOK _ hne) (valid_of_nodeOK _ (allNodes_ext e _ hsub))
+    rw [← stripNs_eq_dropNs (.node (.element name) ks), ← hstrip, stripNs_eq_dropNs]
+    simp only [dropNs, dropNsList_nsLeaves_append]
+
 /-- Non-vacuity, closed (tables `c01Env` of Props/C01): `<!--h--><r k="v"><c/><t/></r>` with `r` in
     `urn:a`, `c` in `urn:b`, nothing declared: representable, NOT writable; the call registers `n0`, `n1`
     and the result serialises to `<!--h--><n0:r xmlns:n0="urn:a" xmlns:n1="urn:b" k="v"><n1:c/><t/></n0:r>`. -/
@@ -1040,6 +1090,30 @@ example : ∃ env' T' s p, createMissingPrefixes c01Env (.node (.element 2) [.no
     (Or.inl rfl)
   obtain ⟨_, _, s, p, k1, k2, _, _, k5⟩ := C10_repair_roundtrip_element c01Env 2 _ (by decide) (by decide) env' T' h
   exact ⟨env', T', s, p, h, k1, k2, k5⟩
+
+/-- Non-vacuity of `C10_repair_roundtrip_inner`, closed: `<r xmlns="urn:a"><c/></r>` with `c` in `urn:b`
+    (not writable); the call on the INNER element `c` registers `n0`; `to_string(c)` then writes the
+    inherited default declaration before the new one. -/
+def c10InnerDoc : Tree :=
+  .node .document [.node (.element 2) [.node (.namespace 0 2) [], .node (.element 3) []]]
+
+example : RepresentableFragment c01Env c10InnerDoc = true ∧ namesWritable c01Env c10InnerDoc [0, 1] = some false ∧
+    (match createMissingPrefixes c01Env c10InnerDoc [0, 1] with
+      | .ok (env', t') => some (toXmlString env' t' [0, 1], (standalone t' [0, 1]).map (toXmlString env' · []))
+      | _ => none) =
+    some (.ok "<n0:c xmlns=\"urn:a\" xmlns:n0=\"urn:b\"/>".toList,
+      some (.ok "<n0:c xmlns=\"urn:a\" xmlns:n0=\"urn:b\"/>".toList)) := by
+  decide
+
+example : ∃ env' t' ks' s p X, createMissingPrefixes c01Env c10InnerDoc [0, 1] = .ok (env', t') ∧
+    t'.at? [0, 1] = some (.node (.element 3) ks') ∧ toXmlString env' t' [0, 1] = .ok s ∧
+    parseString .document env' s = .ok p ∧
+    p.tree = .node .document [.node (.element 3) (nsLeaves X ++ ks')] ∧
+    deepEqual (.node (.element 3) (nsLeaves X ++ ks')) (.node (.element 3) []) = true := by
+  obtain ⟨env', t', h⟩ := (C10_repair_never_panics c01Env c10InnerDoc [0, 1] _ rfl).2.2.2 (Or.inl rfl)
+  obtain ⟨_, _, ks', s, p, X, k1, _, k3, _, k5, k6, _, _, k9⟩ :=
+    C10_repair_roundtrip_inner c01Env c10InnerDoc (by decide) (by decide) [0, 1] 3 [] rfl env' t' h
+  exact ⟨env', t', ks', s, p, X, h, k1, k3, k5, k6, k9⟩
 
 /-- `nameTableOK` is needed (closed): with a name in the namespace `U+0001` the document is representable,
     the call succeeds, and the repaired document is no longer representable (`xmlns:n0="&#x1;"`). -/
